@@ -14,6 +14,8 @@ CORE = "cobald.daemon.core.config"
 YAML = "cobald.daemon.config.yaml"
 SAFE = {"yaml.SafeLoader", "yaml.CSafeLoader"}
 FORBIDDEN_NAMES = {"Loader", "UnsafeLoader", "FullLoader", "CLoader", "CFullLoader", "CUnsafeLoader", "unsafe_load", "full_load", "load_all", "unsafe_load_all", "full_load_all"}
+TABLES = {"yaml_constructors", "yaml_multi_constructors", "yaml_implicit_resolvers", "yaml_path_resolvers", "yaml_representers", "yaml_multi_representers"}
+PERMISSIVE_PARTS = {"FullConstructor", "UnsafeConstructor", "Constructor", "FullLoader", "UnsafeLoader", "Loader", "CLoader", "CFullLoader", "CUnsafeLoader"}
 REGISTRARS = {"add_constructor", "add_multi_constructor", "add_implicit_resolver", "add_path_resolver", "add_representer"}
 
 
@@ -65,6 +67,20 @@ class wiring:
             out["the-plugin-factory-is-the-entry-points-object-or-its-.s"] = sorted(assigns) == ["entry.load()", "entry.load().s"]
             out["registration-targets-the-loader-argument"] = ast.unparse(call.func.value) == "loader"
         out["no-permissive-yaml-entry-point-is-named-anywhere-in-src"] = not forbidden
+        # (2b) PyYAML's constructor / resolver tables are class attributes that add_constructor() copies on write; touching them
+        # directly (or importing a permissive Constructor class to borrow its methods) bypasses every fact above
+        tables = []
+        for name, mod in repo.modules.items():
+            for node in ast.walk(mod.tree):
+                if isinstance(node, ast.Attribute) and node.attr in TABLES:
+                    tables.append((name, node.attr))
+                if isinstance(node, ast.ImportFrom) and (node.module or "").split(".")[0] == "yaml":
+                    for a in node.names:
+                        if a.name in PERMISSIVE_PARTS or a.name == "*":
+                            tables.append((name, a.name))
+                if isinstance(node, ast.Attribute) and node.attr in PERMISSIVE_PARTS:
+                    tables.append((name, node.attr))
+        out["no-constructor-or-resolver-table-of-PyYAML-is-touched-directly"] = not tables
         # (3) load(): yaml/yml goes through COBalDLoader and nothing else
         fn = repo.get(CORE + ":load")
         ok = isinstance(fn, FunctionInfo)
